@@ -65,6 +65,7 @@ SCALARS = {
     ("bool", "True"): True,
     ("bool", "False"): False,
     ("float", "1.5"): 1.5,
+    ("float", "1.0"): 1.0,
     ("str", "a"): "a",
     ("str", ""): "",
     ("str", "ab"): "ab",
